@@ -411,13 +411,16 @@ func judge(s *session, sequential bool) (fs []finding, st sessionStats, views []
 	}
 
 	// ---- spurious rejections (counted, never raised) -----------------------------------------
+	// "definitely under its limits" is judged with the CLOSED window [t-60s, t] and with every
+	// other request that may have held a slot: a server that still counts an entry exactly 60 s
+	// old, or that refuses because of a request racing with this one, is within the statement.
 	for _, x := range views {
 		g, pp, conc := 0, 0, 0
 		for _, y := range views {
 			if y == x {
 				continue
 			}
-			if !y.stage1Rej && y.rq.Arrival > x.rq.Arrival-window && y.rq.Arrival <= x.rq.Arrival {
+			if !y.stage1Rej && y.rq.Arrival >= x.rq.Arrival-window && y.rq.Arrival <= x.rq.Arrival {
 				g++
 				if y.rq.peer == x.rq.peer {
 					pp++
@@ -455,7 +458,7 @@ func judge(s *session, sequential bool) (fs []finding, st sessionStats, views []
 			}
 			n := 0
 			for _, y := range views {
-				if y != x && y.ddr != nil && y.ddrT > t-window && y.ddrT <= t {
+				if y != x && y.ddr != nil && y.ddrT >= t-window && y.ddrT <= t {
 					n++
 				}
 			}
